@@ -3,7 +3,10 @@
  * vp_aioq_first / vp_aioq_empty by post.h. */
 #ifndef VP_LISTS_POST_H
 #define VP_LISTS_POST_H
-#define VP_IS_AIOQ(l) ((l) == g_qa_addr || (l) == g_qb_addr)
+/* an aio wait list is recognised by its member offset (nni_aio_list_init: a_prov_node), which the
+ * harness sets; this is a constant for symbolic execution even when the list pointer is not */
+#define VP_AIO_OFF offsetof(nni_aio, a_prov_node)
+#define VP_IS_AIOQ(l) ((l)->ll_offset == VP_AIO_OFF)
 void  nni_list_init_offset(nni_list *l, size_t off) { if (!VP_IS_AIOQ(l)) real_list_init_offset(l, off); }
 void *nni_list_first(const nni_list *l) { return (VP_IS_AIOQ(l) ? vp_aioq_first(l) : real_list_first(l)); }
 int   nni_list_empty(nni_list *l) { return (VP_IS_AIOQ(l) ? vp_aioq_empty(l) : real_list_empty(l)); }
